@@ -132,11 +132,11 @@ def scenarios(tier):
     lim_q = ['SUPERBEE', 'VanLeer', 'HCUS', 'CHARM', 'ospre', 'MinMod']
     for g in scen.ALL:
         nd = scen.ndim(g)
-        dl = {1: [[1], [3]], 2: [[2, 2]], 3: [[2, 2, 2]]}[nd]
+        dl = {1: [[1], [3]], 2: [[2, 2], [2, 3]], 3: [[2, 2, 2], [1, 2, 3]]}[nd]
         if tier == 'thorough':
             dl = {1: [[1], [2], [3], [4]], 2: [[2, 2], [3, 2], [1, 3]], 3: [[2, 2, 2], [3, 2, 2], [1, 2, 3]]}[nd]
         for dims in dl:
-            for n in (NAMES if tier == 'thorough' or nd == 1 else lim_q):
+            for n in (NAMES if tier == 'thorough' or nd == 1 else (lim_q if dims == dl[0] else lim_q[:2])):
                 T.append({'name': 'tvd/%s/%s/%s' % (g, 'x'.join(map(str, dims)), n), 'fn': 'pv.props.c13:tvd_total',
                           'params': {'g': g, 'dims': dims, 'name': n}, 'validate': 1, 'timeout': 30})
     return T
